@@ -37,22 +37,25 @@ _EID = 'ite(truthy(request) and not truthy(entity_id), vstr(strip(request.issuer
 _REG = ('exists(lambda j: as_type(md_services(self.metadata, EID, %r, result[0], None)[j], "Dict(Str, Any)")["location"] == result[1], '
         '0, len(md_services(self.metadata, EID, %r, result[0], None)))')
 _variants = {}
-for _svc, _urlattr in [('assertion_consumer_service', 'assertion_consumer_service_url')]:
+_RQT = {'assertion_consumer_service': REQ, 'single_logout_service': "Opt(Inst('saml2_tophat.samlp:LogoutRequest'))",
+        'manage_name_id_service': "Opt(Inst('saml2_tophat.samlp:ManageNameIDRequest'))",
+        'attribute_consuming_service': "Opt(Inst('saml2_tophat.samlp:AttributeQuery'))"}
+for _svc, _urlattr in [('assertion_consumer_service', 'assertion_consumer_service_url'), ('single_logout_service', None),
+                       ('manage_name_id_service', None), ('attribute_consuming_service', None)]:
     _vq = ENT + '.pick_binding[%s]' % _svc
     _variants[('service', _svc)] = _vq
     contract(_vq, variant_of=ENT + '.pick_binding', consts={'service': _svc},
-             types={'bindings': 'Opt(List(Str))', 'descr_type': 'Opt(Str)', 'request': REQ, 'entity_id': 'Opt(Str)'},
+             types={'bindings': 'Opt(List(Str))', 'descr_type': 'Opt(Str)', 'request': _RQT[_svc], 'entity_id': 'Opt(Str)'},
              returns='Tuple(Str, Any)',
-             lets={'EID': _EID,
-                   'BS': 'ite(bindings is not None, bindings, ite(truthy(request) and truthy(request.protocol_binding), None, '
-                         'self.config.preferred_binding[%r]))' % _svc},
+             requires=(['request is None or cls_of(request) == cls_id(%r)' % _RQT[_svc][len("Opt(Inst('"):-3]] if _urlattr is None else []),
+             lets={'EID': _EID},
              ensures=[
                  # C09: the destination is an endpoint the requester's metadata registers for this service and binding
                  ('C09-destination-is-registered', _REG % (_svc, _svc)),
                  ('C09-binding-was-offered', 'implies(bindings is not None, result[0] in bindings)'),
                  # a URL supplied in the request is honoured only if it equals a registered one
                  ('C09-supplied-url-only-if-registered',
-                  'implies(truthy(request) and truthy(request.%s), result[1] == request.%s)' % (_urlattr, _urlattr))],
+                  ('implies(truthy(request) and truthy(request.%s), result[1] == request.%s)' % (_urlattr, _urlattr)) if _urlattr else 'True')],
              raises={'SAMLError': 'True', 'UnknownSystemEntity': 'True', 'KeyError': 'True', 'AttributeError': 'True',
                      'IndexError': 'True', 'TypeError': 'True'},
              modifies=[], loops={0: {'inv': [], 'modifies': []}, 1: {'inv': [], 'modifies': []}, 2: {'inv': [], 'modifies': []}},
@@ -81,6 +84,23 @@ contract(ENT + '.response_args[AuthnRequest]', variant_of=ENT + '.response_args'
                  'IndexError': 'True', 'TypeError': 'True'},
          modifies=[],
          clauses_from={'C09': ['C09-destination-is-registered-or-soap', 'C09-supplied-url-only-if-registered']})
+
+for _cls, _svc in [('LogoutRequest', 'single_logout_service'), ('ManageNameIDRequest', 'manage_name_id_service'),
+                   ('AttributeQuery', 'attribute_consuming_service')]:
+    contract(ENT + '.response_args[%s]' % _cls, variant_of=ENT + '.response_args',
+             types={'message': "Inst('saml2_tophat.samlp:%s')" % _cls, 'bindings': 'Opt(List(Str))', 'descr_type': 'Opt(Str)'},
+             returns='Dict(Str, Any)',
+             requires=['cls_of(message) == cls_id("saml2_tophat.samlp:%s")' % _cls],
+             lets={'EID': 'vstr(strip(message.issuer.text))'},
+             ensures=[('C09-destination-is-registered-or-soap',
+                       "(result['destination'] == '' and result['binding'] == %r) or "
+                       "exists(lambda j: as_type(md_services(self.metadata, EID, %r, result['binding'], None)[j], "
+                       "\"Dict(Str, Any)\")['location'] == result['destination'], 0, "
+                       "len(md_services(self.metadata, EID, %r, result['binding'], None)))"
+                       % ('urn:oasis:names:tc:SAML:2.0:bindings:SOAP', _svc, _svc))],
+             raises={'SAMLError': 'True', 'UnknownSystemEntity': 'True', 'KeyError': 'True', 'AttributeError': 'True',
+                     'IndexError': 'True', 'TypeError': 'True'},
+             modifies=[], clauses_from={'C09': ['C09-destination-is-registered-or-soap']})
 
 
 # ================================================================================================ C02: Entity._parse_response
